@@ -7,27 +7,35 @@
 EXTENDS SchemaUniverse, Json, CSV
 
 CONSTANTS K, KO, W,
+          SK,       \* sharing wrappers (SchemaUniverse!ShareWrappers) are applied to schemas with at most SK keywords
           Ext,      \* TRUE: also the keyword instances outside the oracle (formats, patterns, discriminator)
           ValSet    \* "plain" | "ext" | "marker": which value list goes with the schemas
 
-VARIABLES s, own, wraps
-vars == <<s, own, wraps>>
+VARIABLES s, own, wraps,
+          share     \* TRUE: every repeated sub-schema of s is to be realised as a $ref to ONE shared component
+vars == <<s, own, wraps, share>>
 
-Init == s = Empty /\ own = 0 /\ wraps = 0
+Init == s = Empty /\ own = 0 /\ wraps = 0 /\ share = FALSE
 
 AddKw == \E a \in (IF wraps = 0 THEN (IF Ext THEN Atoms \cup ExtAtoms ELSE Atoms) ELSE OuterAtoms) :
             /\ own < (IF wraps = 0 THEN K ELSE KO)
             /\ CanAdd(s, a)
-            /\ s' = With(s, a) /\ own' = own + 1 /\ UNCHANGED wraps
+            /\ (wraps = 0 => ScopeOK(s, a))
+            /\ s' = With(s, a) /\ own' = own + 1 /\ UNCHANGED <<wraps, share>>
 
 Wrap == /\ wraps < W
-        /\ \E w \in Wrappers(s) : s' = w
-        /\ own' = 0 /\ wraps' = wraps + 1
+        /\ \E w \in Wrappers(s) \cup (IF Ext THEN KeyWrappers(s) ELSE {}) : s' = w
+        /\ own' = 0 /\ wraps' = wraps + 1 /\ UNCHANGED share
 
-Next == AddKw \/ Wrap
+WrapShared == /\ wraps < W /\ own <= SK /\ wraps = 0
+              /\ \E w \in ShareWrappers(s) : s' = w
+              /\ share' \in BOOLEAN
+              /\ own' = KO /\ wraps' = wraps + 1      \* no outer keywords next to a sharing wrapper (they multiply the thorough tier by |OuterAtoms|)
+
+Next == AddKw \/ Wrap \/ WrapShared
 Spec == Init /\ [][Next]_vars
 
-Emit == CSVWrite("%1$s", <<ToJson([s |-> s])>>, "cases.ndjson")
+Emit == CSVWrite("%1$s", <<ToJson(IF share THEN [s |-> s, share |-> TRUE] ELSE [s |-> s])>>, "cases.ndjson")
 
 (* emit the value list once (line i = Vals[i]) *)
 TheVals == CASE ValSet = "plain" -> Vals [] ValSet = "ext" -> Vals \o VX [] ValSet = "marker" -> MVals
